@@ -376,3 +376,60 @@ Proof.
   split; [vm_compute; reflexivity|]. split; [vm_compute; reflexivity|]. vm_compute. split; [discriminate|].
   intros sid. do 8 (destruct sid as [|sid]; [reflexivity|]). reflexivity.
 Qed.
+
+(* ---- totality: inside the contract the model run never ends in Err ---------------------------------------------- *)
+(* proofs/SharedTotal.v (on top of proofs/ManagerTotal.v, see Properties_C02.v).  The hypothesis `mrun = Ok` of the entity
+   level theorems is discharged for alpha_s, under the same registration hypothesis reg_b as in C02 (shared type ids
+   need none: the manager never looks up the description of a shared type on these paths).  New with shared components:
+   SharedComponentsInfo::add / remove index ids_ / data_ by the position of the shared id -- in range because every
+   archetype's info is well formed (SharedInv.hok); assignShared / removeShared<T> on a live handle find its location
+   and archetype; removeShared<T> on a dead or null handle is guarded.  assignShared on a handle that is not alive is
+   outside the contract (out_of_contract), as is any shared edit while locked. *)
+From Mustache.proofs Require Import ManagerTotal SharedTotal.
+
+Theorem C12_model_run_total : forall typed n cis ops,
+  cis_ok cis -> forallb (alpha_s cis) ops = true -> forallb (reg_b cis) ops = true ->
+  x_viol (xrun n cis ops) = 0 -> (N.of_nat (creates ops) < 16777000)%N ->
+  exists s hs, mrun typed n cis ops = Ok (s, hs) /\ length hs = creates ops.
+Proof. exact shared_model_run_total. Qed.
+Print Assumptions C12_model_run_total.
+
+(* C12_entity_level without the hypothesis on the model run *)
+Theorem C12_entity_level_total : forall typed n cis ops,
+  cis_ok cis -> forallb (alpha_s cis) ops = true -> forallb (reg_b cis) ops = true ->
+  x_viol (xrun n cis ops) = 0 -> (N.of_nat (creates ops) < 16777000)%N ->
+  refines_on typed n cis ops = true.
+Proof. exact shared_refines_total. Qed.
+Print Assumptions C12_entity_level_total.
+
+(* C12_entity_level_pointwise and C12_one_instance_per_value for the run that exists *)
+Theorem C12_entity_level_refinement_total : forall typed n cis ops,
+  cis_ok cis -> forallb (alpha_s cis) ops = true -> forallb (reg_b cis) ops = true ->
+  x_viol (xrun n cis ops) = 0 -> (N.of_nat (creates ops) < 16777000)%N ->
+  exists s hs, mrun typed n cis ops = Ok (s, hs) /\ length hs = x_count (xrun n cis ops) /\
+  (forall k,
+    match find_ent (xrun n cis ops) k with
+    | Some e => exists e', abs_ent s k (nth k hs null_handle) = Some e' /\ ent_match e e' = true
+    | None => abs_ent s k (nth k hs null_handle) = None
+    end) /\
+  (forall k e, find_ent (xrun n cis ops) k = Some e ->
+     si_wf (shared_of s (nth k hs null_handle)) /\
+     forall sid v, In (sid, v) (e_shared e) <-> exists i, si_get (shared_of s (nth k hs null_handle)) sid = Some i /\ inst_value s i = v) /\
+  (forall k1 e1 k2 e2 sid i1 i2, find_ent (xrun n cis ops) k1 = Some e1 -> find_ent (xrun n cis ops) k2 = Some e2 ->
+     si_get (shared_of s (nth k1 hs null_handle)) sid = Some i1 -> si_get (shared_of s (nth k2 hs null_handle)) sid = Some i2 ->
+     (inst_value s i1 = inst_value s i2 <-> i1 = i2)).
+Proof. exact shared_refinement_total. Qed.
+Print Assumptions C12_entity_level_refinement_total.
+
+Example C12_total_nonvacuous :
+  cis_ok cis6 /\ forallb (alpha_s cis6) script_entity = true /\ forallb (reg_b cis6) script_entity = true /\
+  x_viol (xrun 1 cis6 script_entity) = 0 /\ (N.of_nat (creates script_entity) < 16777000)%N /\ creates script_entity = 4.
+Proof. split; [exact cis6_ok|]. repeat split; vm_compute; reflexivity. Qed.
+
+(* the contract clause on assignShared is needed for totality: on a handle whose entity was destroyed the model returns
+   Err (EntityManager::assignShared indexes archetypes_ with the null archetype index of the stale location:
+   entity_manager.hpp:886-901) -- and the specification counts the operation as a violation *)
+Example C12_assign_shared_on_dead_handle_is_outside_the_contract :
+  let ops := [XoCreate 0 1 [] false; XoDestroyNow 0 0; XoAssignShared 0 3 5%Z]%N in
+  mrun true 1 cis6 ops = Err OobIndex /\ x_viol (xrun 1 cis6 ops) = 1 /\ forallb (alpha_s cis6) ops = true.
+Proof. vm_compute. repeat split; reflexivity. Qed.
